@@ -8,7 +8,7 @@ import (
 
 func init() { register("C11", checkC11) }
 
-var errCompounds = []string{"abs(`\"a\"`)", "nosuch(@)", "length(@, @)", "(@[::0])", "max(`[1, \"a\"]`)", "sort_by(@, &k)", "sum(`[1, null]`)", "sort(`[\"b\", true]`)"}
+var errCompounds = []string{"abs(`\"a\"`)", "nosuch(@)", "length(@, @)", "(@[::0])", "max(`[1, \"a\"]`)", "sort_by(@, &k)", "sum(`[1, null]`)", "sort(`[\"b\", true]`)", "merge(`{}`, `1`)"}
 
 func checkC11(r *harness.Run) harness.Coverage {
 	r.Rule = "erroring sub-expressions {abs(`\"a\"`) invalid type, nosuch(@) unknown function, length(@,@) invalid arity, (@[::0]) zero step, max(`[1,\"a\"]`) mixed array, sort_by(@,&k) inconsistent keys, sum(`[1,null]`) / sort(`[\"b\",true]`) array with a null / boolean element} placed in every one-hole context up to the structural weight bound over all constructs (each operand of every operator, left / right-hand side / condition of each projection kind, argument positions, expression-reference bodies, multi-select members, hash values, pipe sides) x documents that make the hole evaluated and documents that leave it unevaluated. Oracle: the reference evaluator decides whether the error is reached (under every admissible member order); if so Search must return an error. Non-trivial = reference outcome is an error or a non-null value; distinct by (expression, document)"
@@ -17,7 +17,7 @@ func checkC11(r *harness.Run) harness.Coverage {
 	if r.Thorough() {
 		maxW = 6
 	}
-	bad := map[string]bool{"abs": true, "nosuch": true, "max": true, "sum": true, "sort": true}
+	bad := map[string]bool{"abs": true, "nosuch": true, "max": true, "sum": true, "sort": true, "merge": true}
 	keep := func(toks []model.Tok, _ *model.Node) bool {
 		for i, t := range toks {
 			if t.Kind == model.UID && bad[t.Text] {
@@ -41,12 +41,17 @@ func checkC11(r *harness.Run) harness.Coverage {
 	docs := univ.Js(`null`, `{}`, `[]`, `1`, `"a"`, `true`, `[1]`, `[1,2]`, `[[1],[2]]`, `[{"a":1},{"a":null}]`, `[{"k":1},{"k":"a"}]`, `[{"k":1},{"k":2}]`,
 		`{"a":1}`, `{"a":null,"b":1}`, `{"a":[1,2],"b":[]}`, `{"a":[],"b":[1]}`, `{"a":{"a":1},"b":{}}`, `{"a":[{"k":1},{"k":"x"}],"b":0}`, `{"a":"","b":"x"}`,
 		`{"a":false,"b":true}`, `{"a":[[1]],"b":[[]]}`, `{"a":[null],"b":null}`, `[null]`, `[[]]`, `[{}]`, `{"a":{"b":[1]}}`, `{"b":{"a":[1,2]}}`, `[[1,2],[3]]`, `{"a":[{"a":[1]}]}`, `[0]`)
+	docs = append(docs, univ.Js(`{"g":[{"m":[{"v":1,"n":1}]},{"m":[{"v":1,"n":"x"}]},{"m":[{"v":1,"n":3}]},{"m":[{"v":1,"n":4}]}],"h":[{"m":[{"v":2,"n":2},{"v":1,"n":1}]},{"m":[{"v":1,"n":0}]}]}`,
+		`{"g":[{"m":[{"v":1,"n":2}]},{"m":[{"v":1,"n":1}]},{"m":[{"v":"x","n":3}]}],"h":[{"m":[{"v":1,"n":5}]},{"m":[{"v":1,"n":"y"}]},{"m":[{"v":1,"n":6}]}]}`)...)
 	docs = append(docs, univ.Js(`[5,"x"]`, `[0,"a",2]`, `{"a":[5,"x"],"b":[2]}`, `{"a":[0,"x",2],"b":[1]}`, `[{"k":5},{"k":"x"}]`, `{"a":[{"k":5,"t":"n"},{"k":"x","t":"s"},{"k":-2,"t":"n"}],"b":1}`)...)
 	// errors that depend on the element: a failing element AFTER a succeeding one, and elements the
 	// filter condition excludes (which must then not be evaluated at all)
 	for _, e := range []string{"[?abs(@) > `1`] | [0]", "[?abs(@) > `1`]", "a[?abs(k) > `1`] | [0]", "a[?abs(k) > `1`].t | [0]", "[?@ < `1`].abs(@)", "a[?t == 'n'].abs(k)", "a[?t == 's'].abs(k)", "a[?abs(k) > `2`].t",
 		"[*].abs(@)", "a[*].abs(k) | [0]", "[].abs(@)", "a[?t == 'n'] | [*].abs(k)", "map(&abs(@), @)", "[?@ == `5`].abs(@) | [0]", "a[?k == `5`].abs(k)", "[abs([0]), abs([1])]", "not_null([0], abs([1]))",
-		"{x: abs([1]), x: [0]}", "{x: [0], x: abs([1])}", "[0] || abs([1])", "abs([1]) || [0]", "a[0].k || abs(a[1].k)", "[?abs(@) > `1`][0]", "a[?abs(k) > `1`][0].t"} {
+		"{x: abs([1]), x: [0]}", "{x: [0], x: abs([1])}", "[0] || abs([1])", "abs([1]) || [0]", "a[0].k || abs(a[1].k)", "[?abs(@) > `1`][0]", "a[?abs(k) > `1`][0].t",
+		// a by-function nested in the key expression of another: the outer failure must survive the inner success
+		"sort_by(g, &sort_by(m, &v)[0].n)", "sort_by(g, &max_by(m, &v).n)", "max_by(g, &sort_by(m, &v)[0].n)", "min_by(g, &min_by(m, &v).n)", "sort_by(g, &sort_by(m, &v)[0].n) | [0]", "sort_by(g, &map(&n, m)[0])",
+		"sort_by(h, &sort_by(m, &v)[0].n)", "sort_by(h, &max_by(m, &v).n)", "max_by(h, &sort_by(m, &v)[0].n)", "sort_by(h, &map(&n, m)[0])"} {
 		exprs = append(exprs, exprFromText(e))
 	}
 	st := conform(r, exprs, docs, conformOpts{})
